@@ -4,4 +4,7 @@ Cn3 == {1, 2, 3}
 K3 == [c \in Cn3 |-> IF c = 3 THEN "http" ELSE "ws"]
 Q5 == {1, 2, 3, 4, 5}
 CO5 == [q \in Q5 |-> CASE q \in {1, 2} -> 1 [] q \in {3, 4} -> 2 [] OTHER -> 3]
+\* a third call on connection 1 (call 6: the subscribe call of the back-pressure scenario)
+Q6 == {1, 2, 3, 4, 5, 6}
+CO6 == [q \in Q6 |-> CASE q \in {1, 2, 6} -> 1 [] q \in {3, 4} -> 2 [] OTHER -> 3]
 ====
